@@ -17,6 +17,8 @@ type Field struct {
 	N   string `json:"n"`
 	K   uint8  `json:"k"`             // appdef.DataKind
 	Max uint16 `json:"max,omitempty"` // MaxLen constraint (string / bytes only): the field gets an anonymous data type
+	Req bool   `json:"req,omitempty"` // NOT NULL (table fields)
+	Ref string `json:"ref,omitempty"` // ref(<table>) target of a RecordID table field
 }
 
 func (f Field) cons() []appdef.IConstraint {
@@ -39,6 +41,9 @@ type Table struct {
 	Conts    []Cont   `json:"conts,omitempty"`
 	Unique   []string `json:"unique,omitempty"`
 	Abstract bool     `json:"abstract,omitempty"`
+	// Base: local name of an abstract table whose fields are the first fields of this one (what the VSQL
+	// compiler makes of `TABLE t INHERITS base` / a field set: inherited fields come before the own fields)
+	Base string `json:"base,omitempty"`
 }
 
 type View struct {
@@ -132,7 +137,11 @@ func (s *Schema) Build() (app appdef.IAppDef, err error) {
 				return nil, fmt.Errorf("unknown table kind %q", t.Kind)
 			}
 			for _, f := range t.Fields {
-				sb.AddField(f.N, appdef.DataKind(f.K), false, f.cons()...)
+				if f.Ref != "" && f.K == 11 {
+					sb.AddRefField(f.N, f.Req, q(f.Ref))
+				} else {
+					sb.AddField(f.N, appdef.DataKind(f.K), f.Req, f.cons()...)
+				}
 			}
 			for _, c := range t.Conts {
 				sb.AddContainer(c.N, q(c.T), 0, appdef.Occurs_Unbounded)
@@ -226,6 +235,14 @@ func (s *Schema) referenced(name string) bool {
 			}
 		}
 		for _, t := range ws.Tables {
+			if t.Base == name {
+				return true
+			}
+			for _, f := range t.Fields {
+				if f.Ref == name {
+					return true
+				}
+			}
 			for _, c := range t.Conts {
 				if c.T == name {
 					return true
